@@ -485,3 +485,84 @@ func vh_C19_L7_bundled_heartbeat_is_answered() {
 	vassert(nAck == 1, "the bundled heartbeat is answered, echoing its information")
 	vcover("end")
 }
+
+// C19.L3g: the back-off of the shutdown timer survives its own retransmissions. In
+// SHUTDOWN-SENT (SHUTDOWN is repeated) and in SHUTDOWN-ACK-SENT (SHUTDOWN ACK is repeated)
+// T2 expires three times in a row, the writer sending the retransmission each time: the
+// chunk goes out once per expiry and the time armed for the next expiry doubles each time
+// (RTO, 2 RTO, 4 RTO): putting the retransmission on the wire does not restart the series.
+func vh_C19_L3_shutdown_backoff_survives_the_retransmission() {
+	a, _ := vNewAssoc()
+	ackSent := vPick(2) == 1
+	if ackSent {
+		a.setState(shutdownAckSent)
+	} else {
+		a.setState(shutdownSent)
+	}
+	rto := a.rtoMgr.getRTO()
+	vassert(a.t2Shutdown.start(rto), "T2 running")
+	want := time.Duration(rto) * time.Millisecond
+	for i := 0; i < 3; i++ {
+		vassert(a.t2Shutdown.isRunning(), "T2 keeps running")
+		vassert(a.t2Shutdown.calculateNextTimeout() == want, "the time armed doubles with every expiry in a row")
+		vassert(vFireRtx(a, a.t2Shutdown), "T2 expires")
+		n := 0
+		for _, raw := range vWriterWake(a) {
+			for _, c := range vDecode(raw).chunks {
+				switch c.(type) {
+				case *chunkShutdown:
+					if !ackSent {
+						n++
+					}
+				case *chunkShutdownAck:
+					if ackSent {
+						n++
+					}
+				}
+			}
+		}
+		vassert(n == 1, "the chunk is repeated once per expiry")
+		want *= 2
+	}
+	vcover("end")
+}
+
+// C19.L5d: data is acknowledged in every state in which it is accepted. The association is
+// established, or shutting down with data of its own still unacknowledged (SHUTDOWN-PENDING),
+// or waiting for the peer's answer (SHUTDOWN-SENT); a DATA chunk arrives in order or above a
+// hole: a SACK for it goes on the wire at once (hole) or at the latest when the ack timer
+// expires (in order) - never not at all.
+func vh_C19_L5_data_is_acknowledged_in_every_state() {
+	f := vInFlight(1, false) // one chunk of our own outstanding
+	a := f.a
+	a.setState([]uint32{established, shutdownPending, shutdownSent}[vPick(3)])
+	_ = vWriterWake(a)
+	cum := a.peerLastTSN()
+	gap := vPick(2) == 1
+	off := uint32(1)
+	if gap {
+		off = 2
+	}
+	vassert(vDeliver(a, vDataChunk(a, cum+off, 4, true, 1)) == nil, "DATA ok")
+	count := func() int {
+		n := 0
+		for _, raw := range vWriterWake(a) {
+			for _, c := range vDecode(raw).chunks {
+				if sack, ok := c.(*chunkSelectiveAck); ok {
+					n++
+					vassert(sack.cumulativeTSNAck == a.peerLastTSN(), "the SACK carries the cumulative point")
+				}
+			}
+		}
+		return n
+	}
+	n := count()
+	if gap || a.getState() == shutdownSent {
+		vassert(n >= 1, "data above a hole (and any data while waiting for the peer's SHUTDOWN ACK) is acknowledged at once")
+	}
+	if n == 0 {
+		vFireAck(a)
+		vassert(count() >= 1, "in-order data is acknowledged at the latest when the ack timer expires")
+	}
+	vcover("end")
+}
